@@ -7,7 +7,7 @@ MANIFEST.json.
 
 PROPS = {}
 NOT_APPLICABLE = {}
-HOOK_COMMITS = ["c94b8c9", "c3c8497", "5a76809", "8c6f5e6", "6f05708", "4b3aea6"]
+HOOK_COMMITS = ["c94b8c9", "c3c8497", "5a76809", "8c6f5e6", "6f05708", "4b3aea6", "d4d37fd"]
 
 
 def prop(pid, **kw):
@@ -37,13 +37,19 @@ prop("C20",
 prop("C14",
      level="exploration",
      exhaustive=True,
-     parts=[{"engine": "replay"}],
+     parts=[{"engine": "replay"}, {"engine": "chan"}],
      floor={"quick": 10000, "thorough": 100000},
      rule="Histories of Check/Mark on the real transport.SlidingWindow; after every step Check is compared with the set-based "
           "reference on the 19 edge probes and on every counter in [top-520, top+2]. Exhaustive: every delta sequence of "
           "length <=3 (quick) / <=4 (thorough) over 19 deltas straddling block and window edges, from 40 start counters, in "
           "two usage modes (Mark only when accepted; Mark always). Random walks with jump mixtures. Non-trivial = one "
-          "complete history (distinct by enumeration, walks by seed).",
+          "complete history (distinct by enumeration, walks by seed). Second part (engine chan): the filter as the session "
+          "uses it - all data packets of one direction of a real session (80-600, thorough up to 2500) are held back and then "
+          "delivered one at a time in a generated order (ascending runs, forward jumps beyond the ring size, steps back to "
+          "block boundaries and window edges, duplicates), mixed with forged packets carrying a chosen counter (same / far "
+          "ahead) and bit-flipped copies; after each delivery the reader is polled: a genuine packet comes out exactly when "
+          "the reference filter fed with accepted counters accepts it, nothing else ever comes out, and packets that do not "
+          "authenticate leave the filter untouched.",
      level_text="Differential monitoring of the real SlidingWindow against a set+maximum reference after every step of "
                 "bounded-exhaustive delta histories and long random walks (up to 10^5 steps, counters up to 2^63).",
      level_note="Trusts the 15-line reference; histories longer than 4 steps are sampled (walks), not enumerated.",
@@ -240,7 +246,7 @@ prop("C15",
 
 prop("C10",
      level="fault_enumeration",
-     parts=[{"engine": "junk", "checkptr": True}],
+     parts=[{"engine": "junk", "checkptr": True, "escalate_stalls": True, "max_escalations": 3}],
      floor={"quick": 5000, "thorough": 100000},
      child_timeout={"quick": 900, "thorough": 3000},
      rule="Hostile datagrams delivered to the real transport.Server and Client in four server configurations (single certificate; "
